@@ -33,7 +33,7 @@ VARIABLES l,
           closing,  \* closeBegin seen
           removed,  \* streams that left the pool
           removedSeq, \* sequence number of their removeStream event
-          hist      \* per stream <<accepted, taken>> counters are not needed; last event kind for action properties
+          hist      \* label of the last step (event kind, stream, outcome): the step properties are judged on it
 vars == <<l, created, live, peerOf, tagsOf, qcapOf, byPeer, byTag, queue, infl, closing, removed, removedSeq, hist>>
 
 Range(f) == {f[i] : i \in DOMAIN f}
